@@ -7,7 +7,7 @@ import random
 
 from . import tlc, decio
 from . import chainio as cio
-from .c12 import flatten_universe, random_chain, judge, record, selftest
+from .c12 import flatten_universe, random_chain, shaped_chain, judge, record, selftest
 from .core import Outcome, ensure_repo_on_path, finish, pmap, Machinery
 from .pdgdata import tables as pdg_tables
 
@@ -286,6 +286,7 @@ def run(tier, seed, replay_path=None):
         else:
             o.exhaustive = True
         chains += [random_chain(rng, 12 if i % 3 == 0 else 6) for i in range(4000 if deep else 500)]
+        chains += [shaped_chain(rng, "wide" if i % 2 else "deep") for i in range(160 if deep else 24)]
         # the empty final state (the documented default mode `DecayMode()`): for the whole chain, or for a decaying
         # particle somewhere inside it
         for i in range(600 if deep else 80):
